@@ -1,6 +1,7 @@
 package vk
 
 import (
+	"strings"
 	"context"
 	"fmt"
 	"strconv"
@@ -30,6 +31,7 @@ func (s AsyncSetup) String() string {
 // Action kinds: "ev" enabled event, "dis" event below the logger's level, "raw" raw write,
 // "raw0" raw write with an empty payload (nil or zero-length: an item like any other), "evl" event
 // at a user level registered after the logger was started (inside the logger's range),
+// "rawL" raw write of a payload larger than the buffer-reuse cap (an item like any other),
 // "step" let the worker finish the in-flight item.
 type AsyncAction struct {
 	K string
@@ -93,6 +95,8 @@ func RunAsyncHistory(setup AsyncSetup, tagName, handleName string, actions []Asy
 	var submitLate func(id int64)
 	var submitRaw func(id int64)
 	var submitEmpty func(id int64)
+	bigPad := strings.Repeat("P", 20000)
+	var submitBig func(id int64)
 	var stop func()
 
 	if setup.ViaRefresh {
@@ -129,6 +133,7 @@ func RunAsyncHistory(setup AsyncSetup, tagName, handleName string, actions []Asy
 				_, _ = asyncHandle.Write([]byte{})
 			}
 		}
+		submitBig = func(id int64) { _, _ = asyncHandle.Write([]byte("id=" + strconv.FormatInt(id, 10) + " " + bigPad + "\n")) }
 		late := log.RegisterLevel(int32(310+setup.Size%180), "LATE"+strconv.Itoa(setup.Size%5)) // registered while the logger runs
 		submitLate = func(id int64) { log.Record(context.Background(), late, asyncTag, 0, log.Int("id", id)) }
 		stop = log.Destroy
@@ -201,6 +206,7 @@ func RunAsyncHistory(setup AsyncSetup, tagName, handleName string, actions []Asy
 				direct.Write([]byte{})
 			}
 		}
+		submitBig = func(id int64) { direct.Write([]byte("id=" + strconv.FormatInt(id, 10) + " " + bigPad + "\n")) }
 		late := log.RegisterLevel(int32(310+setup.Size%180), "LATE"+strconv.Itoa(setup.Size%5)) // registered while the logger runs
 		submitLate = func(id int64) {
 			e := log.GetEvent()
@@ -243,6 +249,8 @@ func RunAsyncHistory(setup AsyncSetup, tagName, handleName string, actions []Asy
 				submitLate(id)
 			case "raw0":
 				submitEmpty(id)
+			case "rawL":
+				submitBig(id)
 			default:
 				submitRaw(id)
 			}
@@ -254,7 +262,7 @@ func RunAsyncHistory(setup AsyncSetup, tagName, handleName string, actions []Asy
 			return
 		}
 		res.Submitted = append(res.Submitted, id)
-		if kind == "raw" || kind == "raw0" {
+		if kind == "raw" || kind == "raw0" || kind == "rawL" {
 			res.RawIDs[id] = true
 		}
 		if kind == "raw0" {
